@@ -29,6 +29,11 @@ def reset_process_state():
     ovld.recode._current = itertools.count()
     ovld.dependent._current = itertools.count()
     _world_counter = itertools.count()
+    # process-global lookup cache of the annotation normaliser (a TypeMap): whether a generic
+    # origin has been seen before in this process must not change what a run executes
+    import ovld.types
+
+    dict.clear(ovld.types.normalize_type.generic_handlers)
     for k in [k for k in linecache.cache if k.startswith(("<ovld:", WORLD_PREFIX))]:
         del linecache.cache[k]
 
